@@ -190,6 +190,16 @@ func c12Compare(root string, step int, inc, fresh *workspace.Workspace) []ev.Dis
 			}
 		}
 	}
+	// the property says "equals": where two member files disagree about a payee's template or a
+	// commodity's format, the incremental view must let the same file win as a rebuild does
+	if len(ds) == 0 && !reflect.DeepEqual(si.PayeeTemplates, sf.PayeeTemplates) {
+		for k, v := range sf.PayeeTemplates {
+			if !reflect.DeepEqual(si.PayeeTemplates[k], v) {
+				add("templates.exact", "template of payee %q is %v, a rebuild has %v (incremental file order %v, rebuild %v)", k, si.PayeeTemplates[k], v, shortOrder(ri), shortOrder(rf))
+				break
+			}
+		}
+	}
 	cmp("declared.accounts", setOf(inc.GetDeclaredAccounts()), setOf(fresh.GetDeclaredAccounts()))
 	cmp("declared.commodities", setOf(inc.GetDeclaredCommodities()), setOf(fresh.GetDeclaredCommodities()))
 	fi, ff := inc.GetCommodityFormats(), fresh.GetCommodityFormats()
@@ -217,7 +227,25 @@ func c12Compare(root string, step int, inc, fresh *workspace.Workspace) []ev.Dis
 			}
 		}
 	}
+	if len(ds) == 0 && !reflect.DeepEqual(fi, ff) {
+		for sym, f := range ff {
+			if !reflect.DeepEqual(fi[sym], f) {
+				add("formats.exact", "format of %q is %+v, a rebuild has %+v (incremental file order %v, rebuild %v)", sym, fi[sym], f, shortOrder(ri), shortOrder(rf))
+				break
+			}
+		}
+	}
 	return ds
+}
+
+func shortOrder(r *include.ResolvedJournal) []string {
+	var o []string
+	if r != nil {
+		for _, p := range r.FileOrder {
+			o = append(o, filepath.Base(p))
+		}
+	}
+	return o
 }
 
 var c12Seq int
